@@ -96,6 +96,10 @@ func (d *deleted) add(height uint64, hash header.Hash) {
 }
 
 func (s *Store[H]) evictAll(d *deleted) {
+	// the deletion is committed: readers that loaded one of these headers before that and are
+	// about to cache it have to drop it again (see Get and HashByHeight), whether they get to
+	// the cache before or after the eviction below
+	s.deletions.Add(1)
 	for i, height := range d.heights {
 		s.evict(height, d.hashes[i])
 	}
